@@ -127,11 +127,13 @@ pub fn exec_traced(prop: Prop, scn: &AnyScn) -> (crate::stats::RunResult, Value)
 /// The watchdog found a run that neither finished nor consumed entropy.
 pub fn report_hang(prop: Prop, tier: Tier, seed: u64, idx: u64) {
     let scn = generate(prop, seed, idx, tier);
-    let v = Violation { class: "hang".into(), msg: format!("run did not finish within {} s of wall time", crate::runner::WATCHDOG_SECS), op_index: 0 };
+    let v = Violation { class: "hang".into(), msg: format!("run did not finish within {} s of wall time", crate::runner::watchdog_secs()), op_index: 0 };
     let j = replay_json(prop, &scn, &v, seed, idx, tier, json!([]), false);
     let path = write_replay(prop, seed, idx, &j);
-    println!("VIOLATION property={} replay={} class=hang", prop.name(), path.display());
-    std::process::exit(1);
+    println!("VIOLATION property={} replay={} class=hang run={} :: the run neither finished nor consumed entropy for {} s", prop.name(), path.display(), idx, crate::runner::watchdog_secs());
+    eprintln!("HANG run={}", idx);
+    // 71: tells the supervisor to resume the batch without this run (so that evidence is still written)
+    std::process::exit(71);
 }
 
 /// Re-execute a replay file in a fresh process; true when it reports the same class.
